@@ -29,6 +29,8 @@ def random_header(rng, family):
         return f"new bufedge {cap} {rng.choice(['FIFO', 'FIFO', 'LIFO'])}"
     if family == "prq":
         return f"new prq {rng.choice([1, 1, 2, 3, 5])}"
+    if family == "fleet":
+        return f"new fleet {rng.choice([1, 2, 2, 3, 3, 4, 6])} {rng.choice([1, 2, 4, 4, 8, 16])} {rng.choice([0, 0, 1, 2, 3, 8])}"
     raise ValueError(family)
 
 def gen_prq_history(rng, header, nops, stats=None):
@@ -76,7 +78,9 @@ def gen_history(rng, header, nops, malformed=0.2, stats=None):
     def new_item():
         if next_item[0] > 0 and rng.random() < 0.05:
             i = rng.randrange(next_item[0])          # the same object put again
-            if family == "pos" or rng.random() < 0.15 or i in gone: return i
+            if family == "fleet":
+                if i in gone: return i       # an object is loaded again only after it has left (a flow item is in one place)
+            elif family == "pos" or rng.random() < 0.15 or i in gone: return i
         next_item[0] += 1
         kinds[next_item[0] - 1] = rng.randrange(3)
         return next_item[0] - 1
@@ -85,6 +89,7 @@ def gen_history(rng, header, nops, malformed=0.2, stats=None):
         i = new_item()
         op = ["put", a, tid, i, kinds[i]]
         if family in ("buf", "bufedge"): op.append(rng.choice(DELAYS))
+        if family == "fleet": op.append(0)
         return tuple(op)
 
     for _ in range(nops):
@@ -136,20 +141,27 @@ def gen_history(rng, header, nops, malformed=0.2, stats=None):
             elif r < 0.80:
                 t = pick(state="pending") if rng.random() < .5 else pick(state="granted")
                 if t: op = ("cp" if t.side == "put" else "cg", t.tid)
+            elif family == "fleet" and r < 0.96:
+                # event by event: either the next kernel event, or a clock move that stops at (or before) it
+                nt = impl.next_time(); nowt = f2t(impl.env.now)
+                d = rng.choice(ADVS)
+                if nt is not None and (nt <= nowt or rng.random() < 0.55): op = ("ev",)
+                elif nt is not None: op = ("adv", min(d, nt - nowt))
+                else: op = ("adv", d)
             elif r < 0.90:
                 op = ("adv", rng.choice(ADVS))
             elif r < 0.94:
                 op = ("settle",)
             elif r < 0.96:
                 op = ("kstep",)
-            elif family in ("buf", "bufedge") and r < 0.985:
+            elif family in ("buf", "bufedge", "fleet") and r < 0.985:
                 op = ("probe", rng.choice(["can_put", "can_get", "occ", "ready"]))
-            elif family in ("buf", "bufedge") and r < 0.99:
+            elif family in ("buf", "bufedge", "fleet") and r < 0.99:
                 op = ("final",)
             else:
                 op = ("stat",)
         if op is None:
-            op = ("settle",)
+            op = ("settle",) if family != "fleet" else ("ev",)
         line = impl.do(op)
         ops.append(op); lines.append(line)
         # track token states from the implementation's answers
